@@ -17,7 +17,7 @@ THEOREMS = [
     "C02_add_refuses_mismatch",
 ]
 CORR_OPS = ["gmm_estep:whole", "gmm_estep:per_block", "gmm_estep:fold_add", "gmm_estep:fold_iadd", "gmm_estep:fold_iadd_from_fresh", "gmm_estep:dask",
-            "gmm_estep:transform", "stats_add:add", "stats_add:iadd"]
+            "gmm_estep:transform", "gmm_estep:single_vector", "gmm_estep:transform_rows", "stats_add:add", "stats_add:iadd"]
 RULE = ("a machine, a data set and a split of its rows into consecutive blocks (all 2^(n-1) compositions of small n, then random "
         "compositions) or an arbitrary row-to-block assignment; distinct = hash(machine, rows, split); non-trivial = >= 2 blocks and "
         ">= 2 components with responsibility mass > 1e-3")
@@ -38,7 +38,7 @@ def scenarios(ctx, n):
         else:
             sizes = gen.random_composition(r, N)
         w, m, v, sc = gen.gmm_params(r, C, D)
-        x = gen.sample_data(r, w, m, v, N)
+        x = gen.maybe_int(r, gen.sample_data(r, w, m, v, N))
         perm = r.permutation(N) if i % 3 == 2 else np.arange(N)
         out.append(dict(C=C, D=D, w=w, m=m, v=v, x=x, sizes=sizes, perm=perm))
     return out
@@ -93,6 +93,10 @@ def impl_run(sc):
     o["fold_iadd"] = core.impl(fold_iadd)
     o["dask"] = core.impl(dask_stats)
     o["transform"] = core.impl(lambda: [gen.stats_impl(s) for s in g.transform(blocks)])
+    # single samples given as 1-D vectors (acc_stats on a vector; transform / stats_per_sample iterate over the rows of an array)
+    head = x[:3]
+    o["single"] = core.impl(lambda: [gen.stats_impl(g.acc_stats(row)) for row in head])
+    o["rows"] = core.impl(lambda: [gen.stats_impl(s) for s in g.transform(head)])
     return o
 
 
@@ -105,7 +109,10 @@ def correspondence(ctx):
         lines.append({"op": "gmm_estep", "C": sc["C"], "D": sc["D"], **gen.params_line(sc["w"], sc["m"], sc["v"]),
                       "blocks": [core.enc(b) for b in gen.split(xp, sc["sizes"])]})
     outs = core.drive(lines)
-    for sc, o in zip(scs, outs):
+    single_lines = [{"op": "gmm_estep", "C": sc["C"], "D": sc["D"], **gen.params_line(sc["w"], sc["m"], sc["v"]),
+                     "blocks": [core.enc(row[None, :]) for row in sc["x"][:3]]} for sc in scs]
+    single_outs = core.drive(single_lines)
+    for sc, o, so in zip(scs, outs, single_outs):
         im = impl_run(sc)
         whole = gen.stats_dec(o["whole"])
         folded = gen.stats_dec(o["folded"])
@@ -133,6 +140,9 @@ def correspondence(ctx):
             cmp("gmm_estep:fold_iadd_from_fresh", folded, ff)
         cmp("gmm_estep:dask", whole, im["dask"])
         cmp("gmm_estep:transform", per, im["transform"])
+        rows = [gen.stats_dec(p) for p in so["per"]]
+        cmp("gmm_estep:single_vector", rows, im["single"])
+        cmp("gmm_estep:transform_rows", rows, im["rows"])
     # declared-shape check of + and +=
     r = ctx.rng
     lines, pairs = [], []
@@ -185,6 +195,14 @@ def oracle(sc):
         return {"sig": "stats-not-posterior-moments", "what": f"acc_stats differs from responsibility-weighted moments: n={whole['n'].tolist()} expected {exp['n'].tolist()}"}
     if np.any(whole["n"] < 0) or abs(whole["n"].sum() - len(x)) > 1e-8 * max(1, len(x)):
         return {"sig": "responsibilities-off-simplex", "what": f"n={whole['n'].tolist()} t={len(x)}"}
+
+    one = core.impl(lambda: gen.stats_impl(g.acc_stats(x[0])))
+    if isinstance(one, core.ImplError) or one["t"] != 1 or abs(one["n"].sum() - 1) > 1e-9:
+        return {"sig": "single-vector-statistics-wrong-count", "what": f"acc_stats of one sample given as a vector: {one!r}"}
+    rows = core.impl(lambda: [gen.stats_impl(s) for s in g.transform(x)])
+    if isinstance(rows, core.ImplError) or len(rows) != len(x) or any(r_["t"] != 1 for r_ in rows) or \
+            not np.allclose(sum(r_["n"] for r_ in rows), whole["n"], rtol=1e-9, atol=1e-9):
+        return {"sig": "per-sample-statistics-do-not-add-up", "what": f"transform(X) per-row statistics: t = {[r_['t'] for r_ in rows] if not isinstance(rows, core.ImplError) else rows!r}, whole t = {whole['t']}"}
 
     def folded(iadd):
         ss = [g.acc_stats(b) for b in blocks]
